@@ -165,10 +165,17 @@ def parse_output(res, out):
             res.coverage[m.group(1)] = (int(m.group(3)), int(m.group(4)))
 
 
+TLAPS_LIB = '/opt/veriftools/tlapm/lib/tlapm/stdlib'
+
+
 def sany(module, workdir=None):
     wd = workdir or common.subdir('sany')
     stage(wd)
-    p = subprocess.run(['java', '-cp', JAR + ':' + DEPS, 'tla2sany.SANY', module + '.tla'], cwd=wd,
+    # proof modules extend TLAPS, which lives in the proof system's library, not on TLC's class path
+    lib = []
+    if module.endswith('_proofs') and os.path.isdir(TLAPS_LIB):
+        lib = ['-DTLA-Library=' + TLAPS_LIB]
+    p = subprocess.run(['java'] + lib + ['-cp', JAR + ':' + DEPS, 'tla2sany.SANY', module + '.tla'], cwd=wd,
                        stdout=subprocess.PIPE, stderr=subprocess.STDOUT)
     out = p.stdout.decode('utf8', 'replace')
     ok = p.returncode == 0 and 'Semantic errors' not in out and 'Parse Error' not in out \
